@@ -6,6 +6,7 @@ import (
 	"math"
 
 	"verif/harness/model"
+	"verif/harness/simenv"
 
 	"github.com/ozontech/seq-db/verifsim/simos"
 )
@@ -369,6 +370,9 @@ func genC15(seed uint64, tier Tier) *Case {
 	if !veryTight && g.r.Bool(0.12) {
 		return genC15Overlap(g, c)
 	}
+	if !veryTight && g.r.Bool(0.12) {
+		return genC15SlowReader(g, c)
+	}
 	c.Steps = append(c.Steps, Step{Kind: "start"})
 	rounds := g.r.Range(2, 5)
 	for round := 1; round <= rounds; round++ {
@@ -493,6 +497,55 @@ func genC15Overlap(g *gen, c *Case) *Case {
 	}
 	if g.r.Bool(0.5) {
 		c.Steps = append(c.Steps, Step{Kind: "stop"}, Step{Kind: "start"}, Step{Kind: "validate", Label: "again"})
+	}
+	return c
+}
+
+// genC15SlowReader is the sub-profile "a search holds the oldest fraction while retention goes on": searches
+// take simulated time (step cost), retention has to retire a fraction on every other maintenance pass, and the
+// deletion of a fraction waits for its readers. The planned crash falls on one of the renames/removes of the
+// deletions; afterwards the fractions that are left must still be the newest ones.
+func genC15SlowReader(g *gen, c *Case) *Case {
+	c.Profile = "c15-slow-reader"
+	c.Knobs.StepCostNs = []int{100000, 300000}[g.r.Intn(2)]
+	c.Knobs.SyncLatencyUs = []int{0, 200}[g.r.Intn(2)]
+	c.Knobs.MaintenanceDelayMs = 20
+	c.Knobs.FracSize = uint64(g.r.Range(2500, 5000)) // tens of documents per fraction: searching one takes several passes
+	c.Knobs.TotalSize = 4*c.Knobs.FracSize + uint64(g.r.Range(12000, 20000))
+	c.Knobs.SearchWorkers = 1
+	c.Knobs.FractionsPerIteration = 1
+	g.smallDocs = true
+	c.Steps = append(c.Steps, Step{Kind: "start"})
+	// fill up to the limit, observing which fraction holds what
+	for i, n := 0, g.r.Range(10, 16); i < n; i++ {
+		c.Steps = append(c.Steps, seqStep(g.bulk(g.r.Range(4, 6))), Step{Kind: "sleep", Ms: 25})
+		if i%3 == 2 {
+			c.Steps = append(c.Steps, Step{Kind: "sleep", Ms: 60}, Step{Kind: "validate", Label: fmt.Sprintf("fill%d", i)})
+		}
+	}
+	f := &simos.Fault{Group: 1, ImageSeed: g.r.Uint64(), After: g.r.Bool(0.6), Action: []string{"crash", "exit"}[g.r.Intn(2)], Op: []string{"rename", "rename", "remove"}[g.r.Intn(3)], PathSuffix: ".del", Nth: g.r.Range(1, 6)}
+	if f.Op == "remove" {
+		f.PathSuffix = ""
+	}
+	f.ImageMode = []string{"", "all", "all"}[g.r.Intn(3)]
+	c.Faults = append(c.Faults, f)
+	var writer, writer2, reader []Op
+	for i, n := 0, g.r.Range(14, 28); i < n; i++ {
+		writer = append(writer, g.bulk(g.r.Range(4, 6)), Op{Kind: "sleep", Ms: g.r.Range(22, 30)})
+		writer2 = append(writer2, g.bulk(g.r.Range(4, 6)), Op{Kind: "sleep", Ms: g.r.Range(22, 30)})
+	}
+	for i, n := 0, g.r.Range(6, 14); i < n; i++ {
+		// ascending order starts with the oldest fraction; every document matches
+		reader = append(reader, Op{Kind: "search", S: &Search{Q: &model.Q{Op: "all"}, From: 0, To: math.MaxInt64, Size: 100000, Desc: g.r.Bool(0.3), WithTotal: true, Interval: 1,
+			Aggs: []simenv.AggReq{{Func: "quantile", Field: "num", GroupBy: "svc", Quantiles: []float64{0.5}}, {Func: "count", GroupBy: "k0"}, {Func: "unique", GroupBy: "k1"}}}})
+	}
+	c.Steps = append(c.Steps, Step{Kind: "arm", Group: 1}, Step{Kind: "par", Clients: [][]Op{writer, writer2, reader, reader, reader}}, Step{Kind: "disarm"})
+	if g.r.Bool(0.3) {
+		c.Steps = append(c.Steps, Step{Kind: "kill"})
+	}
+	c.Steps = append(c.Steps, Step{Kind: "start"}, Step{Kind: "validate", Label: "restarted"})
+	for i, n := 0, g.r.Range(1, 4); i < n; i++ {
+		c.Steps = append(c.Steps, seqStep(g.bulk(g.r.Range(3, 6))), Step{Kind: "sleep", Ms: 45}, Step{Kind: "validate", Label: fmt.Sprintf("more%d", i)})
 	}
 	return c
 }
